@@ -11,10 +11,11 @@ V(b, tag) == IF b THEN {} ELSE {tag}
 \* a recipe denotes the canonical value of its JSON (duplicates collapse, operand order of symmetric statements vanishes)
 RepViol06(r, same) ==
   V(r.ab = same, IF same THEN "equal-terms-compare-unequal" ELSE "different-terms-compare-equal")
-  \cup V(r.ba = r.ab, "not-symmetric") \cup V(r.aa /\ r.bb, "not-reflexive")
+  \cup V(r.ba = r.ab, "not-symmetric") \cup V(r.aa /\ r.bb, "not-reflexive") \cup V(r.ab_again, "answer-changes-after-use")
   \cup V(r.sentence_eq = same /\ r.narsese_eq = same, "derived-eq-differs")
 \* C07 speaks of terms that COMPARE equal: both the canonically equal pairs and the pairs the real == calls equal
 RepViol07(r, same) ==
+  V(r.ha_again, "hash-changes-after-use") \cup V(r.aa => r.h_clone_eq, "clone-hashes-differently") \cup
   IF ~(same \/ r.ab) THEN {} ELSE
   V(r.ha = r.hb, "equal-terms-hash-differently") \cup V(r.hr_eq, "equal-terms-hash-differently-random-hasher")
   \cup V(r.ha = r.hb_other_thread, "equal-terms-hash-differently-across-threads")
